@@ -50,6 +50,7 @@ type ventry struct {
 	Name string `json:"-"`
 	NameB []int `json:"name"`
 	K    string `json:"k"` // reg, dir, other
+	Link string `json:"link,omitempty"` // target of a link entry (not used by the model: links are skipped)
 	Data []int  `json:"data"`
 	data string
 }
@@ -85,7 +86,7 @@ var venc *json.Encoder
 type vspec struct {
 	name string
 	kind string // reg, dir, sym, link
-	data string
+	data string // for sym / link entries: the link target
 }
 
 func vwriteTarGz(path string, es []vspec) error {
@@ -111,6 +112,9 @@ func vwriteTarGz(path string, es []vspec) error {
 		case "link":
 			h.Typeflag = tar.TypeLink
 			h.Linkname = "target"
+		}
+		if e.data != "" && (e.kind == "sym" || e.kind == "link") {
+			h.Linkname = e.data
 		}
 		if err := tw.WriteHeader(h); err != nil {
 			return err
@@ -148,7 +152,7 @@ func vreadTarGz(path string) ([]ventry, error) {
 		if err != nil {
 			return nil, err
 		}
-		e := ventry{Name: h.Name, NameB: vb(h.Name), K: "other", Data: []int{}}
+		e := ventry{Name: h.Name, NameB: vb(h.Name), K: "other", Data: []int{}, Link: h.Linkname}
 		switch h.Typeflag {
 		case tar.TypeReg:
 			e.K = "reg"
@@ -228,7 +232,11 @@ func vsnapshot(root string, skip string) ([]vnodeT, map[string]string) {
 		if p == skip {
 			return filepath.SkipDir
 		}
-		if info.IsDir() {
+		if info.Mode()&os.ModeSymlink != 0 { // filepath.Walk uses Lstat: links are not followed
+			t, _ := os.Readlink(p)
+			nodes = append(nodes, vnodeT{P: vb(p), Data: vb("SYMLINK -> " + t)})
+			m[p] = "L" + t
+		} else if info.IsDir() {
 			nodes = append(nodes, vnodeT{P: vb(p), Dir: true})
 			m[p] = "D"
 		} else {
@@ -398,6 +406,32 @@ func vgenArchive(r *vrng, sandbox string, it int) varch {
 			es = []vspec{{base, "dir", ""}, {base, "dir", ""}, {base + "/", "dir", ""}, {base + "/k", "reg", "1"}}
 		}
 		return varch{"clash", es}
+	case c < 9: // symbolic-link entries, followed by entries below the link
+		// (all targets stay inside the sandbox: dest is four levels below it)
+		type lv struct{ cl, target string }
+		vars := []lv{
+			{"inside", "sub"}, {"inside-dot", "./sub/../sub"},
+			{"escape-parent", ".."}, {"escape-two", "../.."}, {"escape-via-inside", "sub/../../.."},
+			{"absolute", sandbox + "/l1/l2"}, {"absolute-dest-parent", sandbox + "/l1/l2/l3"},
+		}
+		v := vars[r.n(len(vars))]
+		es := []vspec{{name: "sub", kind: "dir"}, {name: "sub/keep", kind: "reg", data: "k"}}
+		switch r.n(3) {
+		case 0: // link, then a file below it
+			es = append(es, vspec{"link", "sym", v.target}, vspec{"link/evil", "reg", "EVIL"})
+		case 1: // chained: b -> a/.. where a is itself a link
+			es = append(es, vspec{"a", "sym", v.target}, vspec{"b", "sym", "a/."},
+				vspec{"b/evil", "reg", "EVIL"})
+			v.cl += "-chained"
+		default: // link in a sub-directory, a directory and a file below it
+			es = append(es, vspec{"sub/l", "sym", v.target}, vspec{"sub/l/d", "dir", ""},
+				vspec{"sub/l/d/evil", "reg", "EVIL"})
+			v.cl += "-nested"
+		}
+		if r.n(2) == 0 {
+			es = append(es, vspec{"after", "reg", "later"})
+		}
+		return varch{"symlink:" + v.cl, es}
 	default: // hostile name somewhere among benign entries; links and other types
 		es := []vspec{}
 		k := r.n(3)
@@ -592,6 +626,38 @@ func TestVerif(t *testing.T) {
 				}
 				viol(key, fmt.Sprintf("created outside the destination: %v", outside), format, a.class, destArg, es, ok, errs, tree)
 			}
+			// (a') no entry may resolve outside dest: every symbolic link that now exists below dest
+			// must point (its target read relative to the link's directory, .. stepping up) below dest
+			for p, v := range m {
+				if v[0] != 'L' || !vunder(dest, p) {
+					continue
+				}
+				t := v[1:]
+				base := filepath.Dir(p)
+				if strings.HasPrefix(t, "/") {
+					base = "/"
+				}
+				st := strings.Split(strings.Trim(base, "/"), "/")
+				if base == "/" {
+					st = []string{}
+				}
+				for _, sgm := range strings.Split(t, "/") {
+					switch sgm {
+					case "", ".":
+					case "..":
+						if len(st) > 0 {
+							st = st[:len(st)-1]
+						}
+					default:
+						st = append(st, sgm)
+					}
+				}
+				res := "/" + strings.Join(st, "/")
+				if res != dest && !vunder(dest, res) {
+					viol(format+"-symlink-target-outside", fmt.Sprintf("extraction created the symbolic link %s -> %s, which resolves to %s outside the destination",
+						strings.TrimPrefix(p, sandbox), t, strings.TrimPrefix(res, sandbox)), format, a.class, destArg, es, ok, errs, tree)
+				}
+			}
 			// (b) an entry whose final lexical position (name applied to dest component by
 			// component, .. stepping up) is not strictly below dest must be rejected
 			escaping := false
@@ -692,6 +758,8 @@ var vfixedArch = []varch{
 	{"duplicate", []vspec{{"f", "reg", "0123456789"}, {"f", "reg", "AB"}}},
 	{"wf-dot-slash-root", []vspec{{"./", "dir", ""}, {"./g", "reg", "x"}}},
 	{"wf-explicit-dirs", []vspec{{"a", "dir", ""}, {"a/b.txt", "reg", "hello"}, {"c", "reg", ""}}},
+	{"symlink:escape-two", []vspec{{"link", "sym", "../.."}, {"link/evil", "reg", "EVIL"}}},
+	{"symlink:inside", []vspec{{"sub", "dir", ""}, {"in", "sym", "sub"}, {"in/f", "reg", "x"}}},
 }
 
 var _ = bytes.NewReader
